@@ -170,7 +170,16 @@ namespace adm {
 
   void AudioStreamFormat::clearReferences(
       detail::ParameterTraits<AudioTrackFormat>::tag) {
+    auto trackFormats = std::move(audioTrackFormats_);
     audioTrackFormats_.clear();
+    // keep the back references of the track formats in sync
+    for (auto& weakTrackFormat : trackFormats) {
+      auto trackFormat = weakTrackFormat.lock();
+      if (trackFormat &&
+          trackFormat->getReference<AudioStreamFormat>().get() == this) {
+        trackFormat->removeReference<AudioStreamFormat>();
+      }
+    }
   }
 
   // ---- Common ---- //
